@@ -107,7 +107,11 @@ class FitYamlWriter(YamlWriterMixin, FitDReprBase):
         if _cost_function_identifier is not None:
             _yaml_doc["cost_function"] = _cost_function_identifier
         else:
-            _yaml_doc["cost_function"] = _process_function_code_for_dump(inspect.getsource(fit._cost_function.func))
+            _cost_function_handle = fit._cost_function.func
+            _source_code = getattr(_cost_function_handle, "_source_code", None)  # set when read from file
+            if _source_code is None:
+                _source_code = inspect.getsource(_cost_function_handle)
+            _yaml_doc["cost_function"] = _process_function_code_for_dump(_source_code)
 
         _yaml_doc["minimizer"] = fit._minimizer
         _yaml_doc["minimizer_kwargs"] = fit._minimizer_kwargs
@@ -209,7 +213,9 @@ class FitYamlReader(YamlReaderMixin, FitDReprBase):
             else:
                 _lookup_dict = STRING_TO_COST_FUNCTION
             if _cost_function not in _lookup_dict:
-                _cost_function = _parse_function(_cost_function)
+                _cost_function_source_code = _cost_function
+                _cost_function = _parse_function(_cost_function_source_code)
+                _cost_function._source_code = _cost_function_source_code  # inspect cannot retrieve it later
 
         _minimizer = yaml_doc.pop("minimizer", None)
         _minimizer_kwargs = yaml_doc.pop("minimizer_kwargs", None)
